@@ -204,8 +204,8 @@ def run(c):
     r = recipe(c)
     res = try_build(r)
     coq = cbuild(r, res)
-    if c["kind"] == "neuron" and c.get("w_in") and c["w_in"].get("f") == "nested" and len(c["shapes"][0]) >= 2:
-        coq = None      # numpy's conversion of a NESTED sequence is not in the model (flat sequences are): oracle only
+    if c["kind"] == "neuron" and c.get("w_in") and c["w_in"].get("f") == "nested":
+        coq = None      # numpy's conversion of a Python sequence into the input weight is not in the model: oracle only
     want, S = should_accept(c)
     sig = repr(sorted(c.items(), key=lambda kv: kv[0]))
     nontriv = c["kind"] != "linear" or len(c["shape"]) != 2
